@@ -17,9 +17,6 @@ set_option linter.unusedVariables false
 
 namespace C07L
 open Model.C07
-open Generated.C07 (jacobi_st_Pn jacobi_st_Pnm1 hermiteHe_st_Pn hermiteHe_st_Pnm1 hermiteHe_st_Pnm2 hermiteH_st_Pn hermiteH_st_Pnm1
-  hermiteH_st_Pnm2 laguerre_st_Ln laguerre_st_Lnm1 laguerre_st_Lnp1 dickson1_st_Pn dickson1_st_Pnm1 dickson1_st_Pnm2
-  dickson2_st_Pn dickson2_st_Pnm1 dickson2_st_Pnm2)
 
 section
 variable {K : Type} [Field K] [DecidableEq K] [CharZero K]
@@ -61,11 +58,11 @@ theorem gen_jacobi (n : ℕ) (a b x : K) : Generated.C07.jacobi (n : ℤ) a b x 
           subst this
           exact P2
         · rw [show ((n+2:ℕ):ℤ) + 1 = 3 + (n:ℕ) by push_cast; ring]
-          refine (forRange_induct (fun k s => jacobi_st_Pnm1 s = jacobi (k+1) a b x ∧ jacobi_st_Pn s = jacobi (k+2) a b x)
+          refine (forRange_induct (fun k s => Generated.C07.jacobi_st_Pnm1 s = jacobi (k+1) a b x ∧ Generated.C07.jacobi_st_Pn s = jacobi (k+2) a b x)
             3 _ _ ?_ ?_ n).2
           · exact ⟨by simp [jacobi_one, jacP1], P2⟩
           · rintro k s ⟨hs1, hs2⟩
-            dsimp only [jacobi_st_Pn, jacobi_st_Pnm1] at hs1 hs2 ⊢
+            dsimp only [Generated.C07.jacobi_st_Pn, Generated.C07.jacobi_st_Pnm1] at hs1 hs2 ⊢
             refine ⟨hs2, ?_⟩
             have hc : (((3 + (k:ℤ) - 1 : ℤ)) : K) = ((k + 1 : ℕ) : K) + 1 := by push_cast; ring
             rw [hs1, hs2, hc, gen_abc_nat, jacobi_succ_succ (k+1)]
@@ -92,11 +89,11 @@ theorem gen_hermiteHe (n : ℕ) (x : K) : Generated.C07.hermiteHe (n : ℤ) x = 
         · rename_i h
           obtain ⟨m, rfl⟩ : ∃ m, n = m + 1 := ⟨n - 1, by omega⟩
           rw [show ((m+1+2:ℕ):ℤ) + 1 = 3 + ((m+1 : ℕ):ℤ) by push_cast; ring]
-          refine (forRange_induct (fun k s => hermiteHe_st_Pnm2 s = hermiteHe (k+1) x ∧ hermiteHe_st_Pnm1 s = hermiteHe (k+2) x
-              ∧ (1 ≤ k → hermiteHe_st_Pn s = hermiteHe (k+2) x)) 3 _ _ ?_ ?_ (m+1)).2.2 (by omega)
+          refine (forRange_induct (fun k s => Generated.C07.hermiteHe_st_Pnm2 s = hermiteHe (k+1) x ∧ Generated.C07.hermiteHe_st_Pnm1 s = hermiteHe (k+2) x
+              ∧ (1 ≤ k → Generated.C07.hermiteHe_st_Pn s = hermiteHe (k+2) x)) 3 _ _ ?_ ?_ (m+1)).2.2 (by omega)
           · exact ⟨by simp [hermiteHe_one], P2, by omega⟩
           · rintro k s ⟨hs1, hs2, -⟩
-            dsimp only [hermiteHe_st_Pn, hermiteHe_st_Pnm1, hermiteHe_st_Pnm2] at hs1 hs2 ⊢
+            dsimp only [Generated.C07.hermiteHe_st_Pn, Generated.C07.hermiteHe_st_Pnm1, Generated.C07.hermiteHe_st_Pnm2] at hs1 hs2 ⊢
             refine ⟨hs2, ?_, fun _ => ?_⟩ <;> (rw [hs1, hs2, hermiteHe_succ_succ (k+1)]; push_cast; ring))
 
 theorem gen_hermiteH (n : ℕ) (x : K) : Generated.C07.hermiteH (n : ℤ) x = hermiteH n x := by
@@ -121,11 +118,11 @@ theorem gen_hermiteH (n : ℕ) (x : K) : Generated.C07.hermiteH (n : ℤ) x = he
         · rename_i h
           obtain ⟨m, rfl⟩ : ∃ m, n = m + 1 := ⟨n - 1, by omega⟩
           rw [show ((m+1+2:ℕ):ℤ) + 1 = 3 + ((m+1 : ℕ):ℤ) by push_cast; ring]
-          refine (forRange_induct (fun k s => hermiteH_st_Pnm2 s = hermiteH (k+1) x ∧ hermiteH_st_Pnm1 s = hermiteH (k+2) x
-              ∧ (1 ≤ k → hermiteH_st_Pn s = hermiteH (k+2) x)) 3 _ _ ?_ ?_ (m+1)).2.2 (by omega)
+          refine (forRange_induct (fun k s => Generated.C07.hermiteH_st_Pnm2 s = hermiteH (k+1) x ∧ Generated.C07.hermiteH_st_Pnm1 s = hermiteH (k+2) x
+              ∧ (1 ≤ k → Generated.C07.hermiteH_st_Pn s = hermiteH (k+2) x)) 3 _ _ ?_ ?_ (m+1)).2.2 (by omega)
           · exact ⟨by simp [hermiteH_one], P2, by omega⟩
           · rintro k s ⟨hs1, hs2, -⟩
-            dsimp only [hermiteH_st_Pn, hermiteH_st_Pnm1, hermiteH_st_Pnm2] at hs1 hs2 ⊢
+            dsimp only [Generated.C07.hermiteH_st_Pn, Generated.C07.hermiteH_st_Pnm1, Generated.C07.hermiteH_st_Pnm2] at hs1 hs2 ⊢
             refine ⟨hs2, ?_, fun _ => ?_⟩ <;> (rw [hs1, hs2, hermiteH_succ_succ (k+1)]; push_cast; ring))
 
 theorem gen_laguerre (n : ℕ) (al x : K) : Generated.C07.laguerre (n : ℤ) al x = laguerre n al x := by
@@ -148,11 +145,11 @@ theorem gen_laguerre (n : ℕ) (al x : K) : Generated.C07.laguerre (n : ℤ) al 
           subst this
           exact P2
         · rw [show ((n+2:ℕ):ℤ) + 1 = 3 + (n:ℕ) by push_cast; ring]
-          refine (forRange_induct (fun k s => laguerre_st_Lnp1 s = laguerre (k+2) al x
-              ∧ laguerre_st_Ln s = laguerre (k+2) al x ∧ laguerre_st_Lnm1 s = laguerre (k+1) al x) 3 _ _ ?_ ?_ n).1
+          refine (forRange_induct (fun k s => Generated.C07.laguerre_st_Lnp1 s = laguerre (k+2) al x
+              ∧ Generated.C07.laguerre_st_Ln s = laguerre (k+2) al x ∧ Generated.C07.laguerre_st_Lnm1 s = laguerre (k+1) al x) 3 _ _ ?_ ?_ n).1
           · exact ⟨P2, P2, by simp [laguerre_one]⟩
           · rintro k s ⟨-, hs2, hs3⟩
-            dsimp only [laguerre_st_Lnp1, laguerre_st_Ln, laguerre_st_Lnm1] at hs2 hs3 ⊢
+            dsimp only [Generated.C07.laguerre_st_Lnp1, Generated.C07.laguerre_st_Ln, Generated.C07.laguerre_st_Lnm1] at hs2 hs3 ⊢
             refine ⟨?_, ?_, hs2⟩ <;> (rw [hs2, hs3, laguerre_succ_succ (k+1)]; push_cast; ring))
 
 theorem gen_dickson1 (n : ℕ) (al x : K) : Generated.C07.dickson1 (n : ℤ) al x = dickson1 n al x := by
@@ -168,11 +165,11 @@ theorem gen_dickson1 (n : ℕ) (al x : K) : Generated.C07.dickson1 (n : ℤ) al 
         unfold Generated.C07.dickson1
         simp only [if_neg h0, if_neg h1, ofInt_eq, Int.cast_one, Int.cast_ofNat, Int.cast_zero]
         rw [show ((n+2:ℕ):ℤ) + 1 = 2 + ((n+1:ℕ):ℤ) by push_cast; ring]
-        refine (forRange_induct (fun k s => dickson1_st_Pnm1 s = dickson1 (k+1) al x ∧ dickson1_st_Pnm2 s = dickson1 k al x
-            ∧ (1 ≤ k → dickson1_st_Pn s = dickson1 (k+1) al x)) 2 _ _ ?_ ?_ (n+1)).2.2 (by omega)
+        refine (forRange_induct (fun k s => Generated.C07.dickson1_st_Pnm1 s = dickson1 (k+1) al x ∧ Generated.C07.dickson1_st_Pnm2 s = dickson1 k al x
+            ∧ (1 ≤ k → Generated.C07.dickson1_st_Pn s = dickson1 (k+1) al x)) 2 _ _ ?_ ?_ (n+1)).2.2 (by omega)
         · exact ⟨by simp [dickson1, dickPair], by simp [dickson1, dickPair], by omega⟩
         · rintro k s ⟨hs1, hs2, -⟩
-          dsimp only [dickson1_st_Pn, dickson1_st_Pnm1, dickson1_st_Pnm2] at hs1 hs2 ⊢
+          dsimp only [Generated.C07.dickson1_st_Pn, Generated.C07.dickson1_st_Pnm1, Generated.C07.dickson1_st_Pnm2] at hs1 hs2 ⊢
           refine ⟨?_, hs1, fun _ => ?_⟩ <;> (rw [hs1, hs2]; simp only [dickson1]; rw [dickPair_succ_succ]))
 
 theorem gen_dickson2 (n : ℕ) (al x : K) : Generated.C07.dickson2 (n : ℤ) al x = dickson2 n al x := by
@@ -188,11 +185,11 @@ theorem gen_dickson2 (n : ℕ) (al x : K) : Generated.C07.dickson2 (n : ℤ) al 
         unfold Generated.C07.dickson2
         simp only [if_neg h0, if_neg h1, ofInt_eq, Int.cast_one, Int.cast_ofNat, Int.cast_zero]
         rw [show ((n+2:ℕ):ℤ) + 1 = 2 + ((n+1:ℕ):ℤ) by push_cast; ring]
-        refine (forRange_induct (fun k s => dickson2_st_Pnm1 s = dickson2 (k+1) al x ∧ dickson2_st_Pnm2 s = dickson2 k al x
-            ∧ (1 ≤ k → dickson2_st_Pn s = dickson2 (k+1) al x)) 2 _ _ ?_ ?_ (n+1)).2.2 (by omega)
+        refine (forRange_induct (fun k s => Generated.C07.dickson2_st_Pnm1 s = dickson2 (k+1) al x ∧ Generated.C07.dickson2_st_Pnm2 s = dickson2 k al x
+            ∧ (1 ≤ k → Generated.C07.dickson2_st_Pn s = dickson2 (k+1) al x)) 2 _ _ ?_ ?_ (n+1)).2.2 (by omega)
         · exact ⟨by simp [dickson2, dickPair], by simp [dickson2, dickPair], by omega⟩
         · rintro k s ⟨hs1, hs2, -⟩
-          dsimp only [dickson2_st_Pn, dickson2_st_Pnm1, dickson2_st_Pnm2] at hs1 hs2 ⊢
+          dsimp only [Generated.C07.dickson2_st_Pn, Generated.C07.dickson2_st_Pnm1, Generated.C07.dickson2_st_Pnm2] at hs1 hs2 ⊢
           refine ⟨?_, hs1, fun _ => ?_⟩ <;> (rw [hs1, hs2]; simp only [dickson2]; rw [dickPair_succ_succ]))
 end
 end C07L
